@@ -26,6 +26,7 @@ from harness.httpm_driver import HdrReal, t2s
 
 ALL_ACTS = '{"add", "set", "del", "get", "getlist", "in", "iter", "items", "pop", "copy", "cadd", "cset", "cdel", "cget", "parseline", "roundtrip"}'
 CORE_ACTS = '{"add", "set", "del", "get", "items", "copy", "cdel", "cget", "parseline", "roundtrip"}'
+CORE5_ACTS = '{"add", "set", "del", "get", "copy", "cdel", "parseline"}'
 
 
 def _sig(path, i, s, obs):
@@ -158,18 +159,18 @@ def _c2s_sig(t, bad, l):
 
 def run(ctx):
     # 1. the specification satisfies the property (exhaustive within the constants)
-    ctx.mc("httpm", "HeaderMap", "MC_HeaderMap.cfg",
-           overrides=ctx.pick({}, {"ValueSel": 2, "MaxValLen": 5}),
+    ctx.mc("httpm", "HeaderMap", "MC_HeaderMap.cfg", timeout=ctx.pick(900, 3000),
+           overrides=ctx.pick({"LineFormats": "{1, 3}", "ContFormats": "{1, 3}"}, {"ValueSel": 2, "MaxValLen": 5}),
            required_actions=["Add", "Set", "Del", "Get", "GetList", "In", "Iter", "ItemsOp", "Pop", "Copy", "CAdd", "CSet",
                              "CDel", "CGet", "ParseLine", "RoundTrip"])
     # 2. spec -> code: every path up to L
     La, Lb = ctx.pick((3, 4), (4, 5))
-    paths = ctx.gen_paths("httpm", "Gen_HeaderMap", "Gen_HeaderMap.cfg", overrides={"L": La, "NameSel": 1, "Acts": ALL_ACTS})
+    paths = ctx.gen_paths("httpm", "Gen_HeaderMap", "Gen_HeaderMap.cfg", timeout=ctx.pick(900, 3000), overrides={"L": La, "NameSel": 1, "Acts": ALL_ACTS})
     ctx.replay(paths, replayer, label="s2c")
-    paths = ctx.gen_paths("httpm", "Gen_HeaderMap", "Gen_HeaderMap.cfg", overrides={"L": Lb, "NameSel": 3, "Acts": CORE_ACTS})
+    paths = ctx.gen_paths("httpm", "Gen_HeaderMap", "Gen_HeaderMap.cfg", timeout=ctx.pick(900, 3000), overrides={"L": Lb, "NameSel": 3, "Acts": ctx.pick(CORE_ACTS, CORE5_ACTS)})
     ctx.replay(paths, replayer, label="s2c")
     ctx.cov["exhaustive"] = True
-    sims = ctx.sim_paths("httpm", "Gen_HeaderMap", "Gen_HeaderMap.cfg", num=ctx.pick(300, 4000), depth=30,
+    sims = ctx.sim_paths("httpm", "Gen_HeaderMap", "Gen_HeaderMap.cfg", timeout=ctx.pick(900, 3000), num=ctx.pick(300, 4000), depth=30,
                          overrides={"L": 30, "NameSel": 4, "Acts": ALL_ACTS, "LineFormats": "{1, 2, 3}",
                                     "ContFormats": "{1, 2, 3}", "BadSel": 1})
     ctx.replay(sims, replayer, label="s2c-sim")
@@ -177,7 +178,7 @@ def run(ctx):
     n = ctx.pick(400, 8000)
     jobs = [(i + 1, ctx.seed * 1000003 + i, 40) for i in range(n)]
     traces = framework.pool_map(random_trace, jobs)
-    ctx.validate("httpm", "Trace_HeaderMap", "Trace_HeaderMap.cfg", traces, sig_fn=_c2s_sig)
+    ctx.validate("httpm", "Trace_HeaderMap", "Trace_HeaderMap.cfg", traces, timeout=ctx.pick(900, 3000), sig_fn=_c2s_sig)
     ctx.cov["rule"] = ("paths: every sequence of add/set/del/get/get_list/in/iter/items/pop/copy/copy-ops/parse_line/round-trip "
                        "up to length %d over names {a, A, b} with serial values, every sequence of the cache-affecting "
                        "operations up to length %d over {a, A}, seeded TLC simulation walks (depth 30, 6 names, all line "
